@@ -299,6 +299,14 @@ VALUATIONS = [
     [0x0123456789ABCDEF, 0xFEDCBA9876543210, 0x8000000000000000, 0x7FFFFFFFFFFFFFFF, 0xFFFFFFFFFFFFFFFF, 1, 0x00000000FFFFFFFF, 0xDEADBEEFCAFEF00D],
     [3, 0x8000000000000001, 0x5555555555555555, 0xAAAAAAAAAAAAAAAA, 0x0000000100000000, 0xFFFFFFFF00000000, 63, 64],
     [0x9E3779B97F4A7C15, 0xBF58476D1CE4E5B9, 0x94D049BB133111EB, 0x2545F4914F6CDD1D, 0xD6E8FEB86659FD93, 0xA0761D6478BD642F, 0xE7037ED1A0B428DB, 0x8EBC6AF09C88C6E3],
+    [0xFFFFFFFFFFFFFFFF] * 8,
+    [0x5555555555555555] * 8,
+    [0xAAAAAAAAAAAAAAAA] * 8,
+    [0x0F0F0F0F0F0F0F0F, 0xF0F0F0F0F0F0F0F0, 0x00FF00FF00FF00FF, 0xFF00FF00FF00FF00, 0x0000FFFF0000FFFF, 0xFFFF0000FFFF0000, 0x00000000FFFFFFFF, 0xFFFFFFFF00000000],
+    [0x3C6EF372FE94F82B, 0xA54FF53A5F1D36F1, 0x510E527FADE682D1, 0x9B05688C2B3E6C1F, 0x1F83D9ABFB41BD6B, 0x5BE0CD19137E2179, 0x6A09E667F3BCC908, 0xBB67AE8584CAA73B],
+    [(0x0123456789ABCDEF * (2 * i + 3)) & 0xFFFFFFFFFFFFFFFF for i in range(8)],
+    [(0xFFFFFFFFFFFFFFFF >> (7 * i + 1)) for i in range(8)],
+    [(1 << (8 * i + 6)) - 1 for i in range(8)],
 ]
 
 IMMS = (0, 1, 63, 64, 0x7FF, 0x800, 0xFFF, 0x1000, 0x7FFFFFFF, 0x80000000, 0xFFFFFFFF, 0xFFFFF800, 0x12345678, 0xF1680000, 0x0000FFFF, 0xFFFF0000)
